@@ -50,6 +50,9 @@ def boxcar_filter(time_series, lb=0, ub=0.5, n_iterations=2):
     one_d = len(time_series.shape) == 1
     if one_d:
         time_series = np.array([time_series])
+    else:
+        # the rows are filtered in place below: work on a copy of the input
+        time_series = np.array(time_series)
     for i in range(time_series.shape[0]):
         if ub:
             # Start by applying a low-pass to the signal.  Pad the signal on
